@@ -125,6 +125,30 @@ def run_config(job):
             if len(set(titles.values())) != len(titles):
                 msgs.append(f"collision: different files share a title/module name: {titles}")
             obs.append(sorted(titles.items()))
+        # several inputs in one invocation: every page is titled from its own input, not from an earlier one
+        box.build({"second/a.cmake": fsbox.cmake_content("second/a"), "second/d1/b.cmake": fsbox.cmake_content("second/d1/b")})
+        out = box.path("work", "out-multi")
+        r = box.run(["-s", box.path("work", "s.yaml"), "-r", "-o", out] + pargs + ["in", "second", "in/d1/b.cmake"])
+        n += 1
+        if r["status"] != 0:
+            msgs.append(f"error: run with several inputs failed: {r['exc'] or r['stdout'][-200:]}")
+        else:
+            # the last writer of a path wins: second/ overwrites in/'s a.rst and d1/b.rst, the lone file d1/b.cmake -> b.rst
+            pages = box.files(os.path.relpath(out, box.root))
+            checks = [("a.rst", explicit if explicit is not None else "second", ["a.cmake"]),
+                      ("d1/b.rst", explicit if explicit is not None else "second", ["d1", "b.cmake"]),
+                      ("d1/d2/c.rst", explicit if explicit is not None else "in", ["d1", "d2", "c.cmake"]),
+                      ("b.rst", explicit, ["b.cmake"])]
+            for rst, pre, comps in checks:
+                if rst not in pages:
+                    msgs.append(f"missing: no page {rst} in a run with several inputs")
+                    continue
+                m, t, mod, _ = page_facts(pages[rst])
+                if t is None or mod is None:
+                    msgs += m
+                elif not derive_ok(t, pre, sep, comps, ext_t) or not derive_ok(mod, pre, sep, comps, ext_m):
+                    msgs.append(f"multi-input: page {rst} of a run with inputs [in, second, in/d1/b.cmake] is titled "
+                                f"{t!r} / module {mod!r}, expected prefix {pre!r} + its own relative path")
         # lone files
         for fpath in FILES[:3]:
             fseen = None
@@ -185,7 +209,8 @@ def module_file(name, body, indent, nxt, i):
 
 
 def run_modules(job):
-    sep, pmode = job
+    sep, pmode = job[:2]
+    ext_t, ext_m = (job[2], job[3]) if len(job) > 2 else (False, False)
     box = fsbox.Box("c12m")
     msgs, n = [], 0
     combos = list(itertools.product(MOD_NAMES, range(len(MOD_BODIES)), MOD_INDENTS, MOD_NEXT))
@@ -195,7 +220,7 @@ def run_modules(job):
             spec[f"in/m{i}.cmake"] = module_file(name, MOD_BODIES[bi], ind, nxt, i)
         box.build(spec)
         with open(box.path("work", "s.yaml"), "w") as f:
-            f.write(settings_yaml(sep, False, False))
+            f.write(settings_yaml(sep, ext_t, ext_m))
         pargs = ["-p", "P"] if pmode == "cli" else []
         r = box.run(["-s", box.path("work", "s.yaml"), "-o", box.path("work", "out")] + pargs + ["in"])
         n = len(combos)
@@ -218,8 +243,9 @@ def run_modules(job):
                 if t != name or mod != name:
                     msgs.append(f"module-doccomment-name: title {t!r} / module name {mod!r}, expected both {name!r}   {what}")
             else:
-                if not derive_ok(t, pre, sep, [f"m{i}.cmake"], False) or not derive_ok(mod, pre, sep, [f"m{i}.cmake"], False):
-                    msgs.append(f"title: {t!r}/{mod!r} not derived from prefix and path   {what}")
+                if not derive_ok(t, pre, sep, [f"m{i}.cmake"], ext_t) or not derive_ok(mod, pre, sep, [f"m{i}.cmake"], ext_m):
+                    msgs.append(f"title: {t!r}/{mod!r} not derived from prefix and path (extension in title {ext_t}, "
+                                f"in module name {ext_m})   {what}")
             body = [f"{l} #{i}" if l else l for l in MOD_BODIES[bi]] if name is not None else []
             mb = page.module()[0]
             own = mb.own_text()
@@ -259,7 +285,8 @@ def run(ctx):
         for sep in (SEPS[:2] if quick else SEPS):
             jobs.append((sep, False, True, "none", headers))
     ctx.sweep(run_config, jobs, space="spellings x prefix x separator x extension flags x headers", selftest=2, chunk=1)
-    mjobs = [(sep, pm) for sep in (SEPS[:2] if quick else SEPS) for pm in ("none", "cli")]
+    mjobs = [(sep, pm, et, em) for sep in (SEPS[:2] if quick else SEPS) for pm in ("none", "cli")
+             for et, em in ((False, False), (True, False), (False, True))]
     ctx.sweep(run_modules, mjobs, space="module doccomments", selftest=1, chunk=1)
     ctx.cov["bounds"] = {"files": FILES, "separators": SEPS, "dir_spellings": [s[0] for s in DIR_SPELLINGS],
                          "file_spellings": [s[0] for s in FILE_SPELLINGS], "module_variants": 4 * 3 * 5 * 3}
@@ -269,6 +296,6 @@ def run(ctx):
 
 
 def replay(case):
-    if len(case) == 2:
+    if len(case) in (2, 4):
         return run_modules(tuple(case))["viol"]
     return run_config(tuple(case))["viol"]
